@@ -37,7 +37,26 @@ theorem C17_lossless (sp : Bool) (frames : List (Bool × Bytes)) (trailers : Lis
       datas.flatten = framesBytes frames := by
   unfold Fixed.observe
   rw [run_filter, hsched]
-  exact run_valid sp trailers htr hlen chunks frames [] hframes (by simpa using hbody)
+  exact run_valid sp trailers trailers (decode_trailersFrame sp trailers htr) hlen chunks frames []
+    hframes (by simpa using hbody)
+
+/-- `C17_lossless` for servers that write trailer names in any case (`Grpc-Status: 0`): the
+names arrive in lower case (field names are case-insensitive), everything else as above. -/
+theorem C17_lossless_any_case (sp : Bool) (frames : List (Bool × Bytes)) (trailers : List Pair)
+    (chunks : List Bytes) (evs : List BodyEv)
+    (hsched : evs.filter notPending = chunks.map BodyEv.data)
+    (hbody : chunks.flatten = framesBytes frames ++ trailersFrame sp trailers)
+    (hframes : ∀ f ∈ frames, f.2.length < 4294967296)
+    (htr : ∀ p ∈ trailers, Spec.GrpcWeb.anyCaseNameOk p.1 = true ∧ plainValueOk p.2 = true)
+    (hlen : (trailersBlock sp trailers).length < 4294967296) :
+    ∃ datas : List Bytes,
+      Fixed.observe evs = datas.map Out.data ++
+        [Out.trailers (trailers.map (fun p => (Spec.GrpcWeb.lowerName p.1, p.2))), Out.eos] ∧
+      datas.flatten = framesBytes frames := by
+  unfold Fixed.observe
+  rw [run_filter, hsched]
+  exact run_valid sp trailers _ (decode_trailersFrame_any sp trailers htr) hlen chunks frames []
+    hframes (by simpa using hbody)
 
 /-- The input domain of `C17_lossless` is what the independent grpc-web reader reads as
 "these message frames, then exactly one trailers frame with these entries" (shown for the
